@@ -26,6 +26,10 @@ structure RInv (s : St) (m : Nat) : Prop where
   waiter : ∀ t u, s.futs t = .pending (some u) → u = t ∧ s.pcs t = some .awaiting
   fin : ∀ t, s.pcs t = some .finished → ∃ v, s.futs t = .done v
   value : 0 < m → s.pcs (m - 1) = some .finished → ∃ v, s.futs (m - 1) = .done v ∧ s.cur = some v
+  /-- the expression holds the result of the evaluation `holder`, which has started -/
+  held : ∀ t, s.holder = some t → t < m ∧ ∃ v, s.futs t = .done v ∧ s.cur = some v
+  unheld : s.holder = none → s.cur = none
+  last_holder : 0 < m → s.pcs (m - 1) = some .finished → s.holder = some (m - 1)
 
 theorem rinv_init : RInv St.init 0 := by
   constructor <;> simp [St.init, spawn, starts, upd]
@@ -78,7 +82,10 @@ theorem rinv_set (s : St) (m : Nat) (r : Int) (h : RInv s m) : RInv (applyEvent 
     waiting := by have := h.waiting; have := h.pcs_none; simp only [applyEvent, spawn]; rgr
     waiter := by have := h.waiter; have := h.pcs_none; simp only [applyEvent, spawn]; rgr
     fin := by have := h.fin; have := h.pcs_none; simp only [applyEvent, spawn]; rgr
-    value := by have := h.value; have := h.started; simp only [applyEvent, spawn]; rgr }
+    value := by have := h.value; have := h.started; simp only [applyEvent, spawn]; rgr
+    held := by have := h.held; have := h.current; have := h.started; simp only [applyEvent, spawn]; rgr
+    unheld := by have := h.unheld; have := h.current; simp only [applyEvent, spawn]; rgr
+    last_holder := by have := h.last_holder; have := h.current; have := h.started; simp only [applyEvent, spawn]; rgr }
 
 
 theorem starts_congr (s s' : St) (h1 : s'.ready = s.ready) (h2 : s'.pcs = s.pcs) : starts s' = starts s := by
@@ -98,7 +105,10 @@ theorem rinv_complete (s : St) (m : Nat) (t : Nat) (r : Int) (h : RInv s m) : RI
         waiting := by have := h.waiting; have := h.waiter; simp only []; rgr
         waiter := by have := h.waiter; simp only []; rgr
         fin := by have := h.fin; simp only []; rgr
-        value := by have := h.value; simp only []; rgr }
+        value := by have := h.value; simp only []; rgr
+        held := by have := h.held; have := h.current; have := h.started; simp only [applyEvent, spawn]; rgr
+        unheld := by have := h.unheld; have := h.current; simp only [applyEvent, spawn]; rgr
+        last_holder := by have := h.last_holder; have := h.current; have := h.started; simp only [applyEvent, spawn]; rgr }
     | some u =>
       have hu := h.waiter t u hw
       obtain ⟨rfl, hpc⟩ := hu
@@ -120,7 +130,10 @@ theorem rinv_complete (s : St) (m : Nat) (t : Nat) (r : Int) (h : RInv s m) : RI
         waiting := by have := h.waiting; have := h.waiter; simp only []; rgr
         waiter := by have := h.waiter; simp only []; rgr
         fin := by have := h.fin; simp only []; rgr
-        value := by have := h.value; simp only []; rgr }
+        value := by have := h.value; simp only []; rgr
+        held := by have := h.held; have := h.current; have := h.started; simp only [applyEvent, spawn]; rgr
+        unheld := by have := h.unheld; have := h.current; simp only [applyEvent, spawn]; rgr
+        last_holder := by have := h.last_holder; have := h.current; have := h.started; simp only [applyEvent, spawn]; rgr }
   · exact h
 
 
@@ -181,7 +194,10 @@ theorem rinv_stepReady (s : St) (m : Nat) (h : RInv s m) : ∃ m', RInv (stepRea
             waiting := by have := h.waiting; have := h.started; simp only []; rgr
             waiter := by have := h.waiter; simp only []; rgr
             fin := by have := h.fin; simp only []; rgr
-            value := by simp [upd, hf] }
+            value := by simp [upd, hf]
+            held := by have := h.held; have := h.current; have := h.started; simp only [applyEvent, spawn]; rgr
+            unheld := by have := h.unheld; have := h.current; simp only [applyEvent, spawn]; rgr
+            last_holder := by have := h.last_holder; have := h.current; have := h.started; simp only [applyEvent, spawn]; rgr }
         | pending w =>
           simp only []
           exact
@@ -197,7 +213,10 @@ theorem rinv_stepReady (s : St) (m : Nat) (h : RInv s m) : ∃ m', RInv (stepRea
             waiting := by have := h.waiting; have := h.started; simp only []; rgr
             waiter := by have := h.waiter; simp only []; rgr
             fin := by have := h.fin; simp only []; rgr
-            value := by simp [upd] }
+            value := by simp [upd]
+            held := by have := h.held; have := h.current; have := h.started; simp only [applyEvent, spawn]; rgr
+            unheld := by have := h.unheld; have := h.current; simp only [applyEvent, spawn]; rgr
+            last_holder := by have := h.last_holder; have := h.current; have := h.started; simp only [applyEvent, spawn]; rgr }
       | awaiting =>
         simp only []
         have htm : t < m := by
@@ -231,7 +250,10 @@ theorem rinv_stepReady (s : St) (m : Nat) (h : RInv s m) : ∃ m', RInv (stepRea
               waiting := by have := h.waiting; simp only []; rgr
               waiter := by have := h.waiter; simp only []; rgr
               fin := by have := h.fin; simp only []; rgr
-              value := by have := h.current; simp only []; rgr }
+              value := by have := h.current; simp only []; rgr
+              held := by have := h.held; have := h.current; have := h.started; simp only [applyEvent, spawn]; rgr
+              unheld := by have := h.unheld; have := h.current; simp only [applyEvent, spawn]; rgr
+              last_holder := by have := h.last_holder; have := h.current; have := h.started; simp only [applyEvent, spawn]; rgr }
           · rename_i hc
             simp only [] at hc
             exact
@@ -246,7 +268,10 @@ theorem rinv_stepReady (s : St) (m : Nat) (h : RInv s m) : ∃ m', RInv (stepRea
               waiting := by have := h.waiting; simp only []; rgr
               waiter := by have := h.waiter; simp only []; rgr
               fin := by have := h.fin; simp only []; rgr
-              value := by have := h.current; have := h.value; simp only []; rgr }
+              value := by have := h.current; have := h.value; simp only []; rgr
+              held := by have := h.held; have := h.current; have := h.started; simp only [applyEvent, spawn]; rgr
+              unheld := by have := h.unheld; have := h.current; simp only [applyEvent, spawn]; rgr
+              last_holder := by have := h.last_holder; have := h.current; have := h.started; simp only [applyEvent, spawn]; rgr }
         | pending w =>
           simp only []
           refine ⟨m, ?_⟩
@@ -257,7 +282,7 @@ theorem rinv_stepReady (s : St) (m : Nat) (h : RInv s m) : ∃ m', RInv (stepRea
             queue := hdrop (by rw [hpc]; simp)
             current := h.current, fresh := h.fresh
             waiting := by have := h.waiting; simp only []; rgr
-            waiter := h.waiter, fin := h.fin, value := h.value }
+            waiter := h.waiter, fin := h.fin, value := h.value, held := h.held, unheld := h.unheld, last_holder := h.last_holder }
       | finished =>
         simp only []
         refine ⟨m, ?_⟩
@@ -268,7 +293,7 @@ theorem rinv_stepReady (s : St) (m : Nat) (h : RInv s m) : ∃ m', RInv (stepRea
           queue := hdrop (by rw [hpc]; simp)
           current := h.current, fresh := h.fresh
           waiting := by have := h.waiting; simp only []; rgr
-          waiter := h.waiter, fin := h.fin, value := h.value }
+          waiter := h.waiter, fin := h.fin, value := h.value, held := h.held, unheld := h.unheld, last_holder := h.last_holder }
 
 
 theorem rinv_drain (n : Nat) : ∀ s m, RInv s m → ∃ m', RInv (drain n s) m' := by
@@ -298,13 +323,10 @@ theorem rinv_run (evs : List Event) : ∃ m, RInv (run evs) m := by
     obtain ⟨m1, h1⟩ := rinv_applyEvent s m ev h
     exact ih _ m1 h1
 
-/-- every evaluation requested so far has completed -/
-def allDone (s : St) : Bool :=
-  (List.range s.nTasks).all fun t => match s.futs t with | .done _ => true | .pending _ => false
-
-/-- latest wins, on a state satisfying the invariant -/
-theorem rinv_latest_wins (s : St) (m : Nat) (h : RInv s m) (hq : s.ready = []) (hd : allDone s = true) :
-    s.futs (s.nTasks - 1) = .done ((s.cur).getD 0) ∧ s.cur ≠ none := by
+/-- latest wins, on a state satisfying the invariant: it is enough that the queue is empty and the
+MOST RECENT evaluation has completed (older ones may still be pending) -/
+theorem rinv_latest_wins (s : St) (m : Nat) (h : RInv s m) (hq : s.ready = []) (v : Int)
+    (hd : s.futs (s.nTasks - 1) = .done v) : s.cur = some v ∧ s.holder = some (s.nTasks - 1) := by
   have hpos := h.pos
   have hm : m = s.nTasks := by
     have := h.queue
@@ -314,13 +336,6 @@ theorem rinv_latest_wins (s : St) (m : Nat) (h : RInv s m) (hq : s.ready = []) (
     | zero => omega
     | succ k => rw [hk] at this; simp [List.range'] at this
   subst hm
-  have hdone : ∀ t, t < s.nTasks → ∃ v, s.futs t = .done v := by
-    intro t ht
-    simp only [allDone, List.all_eq_true, List.mem_range] at hd
-    have := hd t ht
-    cases hf : s.futs t with
-    | done v => exact ⟨v, rfl⟩
-    | pending w => rw [hf] at this; cases this
   have hlast : s.nTasks - 1 < s.nTasks := by omega
   have hfin : s.pcs (s.nTasks - 1) = some .finished := by
     cases hp : s.pcs (s.nTasks - 1) with
@@ -331,9 +346,78 @@ theorem rinv_latest_wins (s : St) (m : Nat) (h : RInv s m) (hq : s.ready = []) (
       | start => have := (h.started _ hlast).1 hp; omega
       | awaiting =>
         rcases h.waiting _ hp with hw | ⟨_, hw⟩
-        · obtain ⟨v, hv⟩ := hdone _ hlast; rw [hv] at hw; cases hw
+        · rw [hd] at hw; cases hw
         · rw [hq] at hw; cases hw
-  obtain ⟨v, hv, hc⟩ := h.value hpos hfin
-  rw [hc]; exact ⟨by simpa using hv, by simp⟩
+  obtain ⟨v', hv, hc⟩ := h.value hpos hfin
+  rw [hd] at hv; cases hv
+  refine ⟨hc, ?_⟩
+  exact h.last_holder hpos hfin
+
+/-- the evaluation whose result is held never goes back -/
+def HLe (a b : Option Nat) : Prop := ∀ t, a = some t → ∃ t', b = some t' ∧ t ≤ t'
+
+theorem HLe.refl (a : Option Nat) : HLe a a := fun t h => ⟨t, h, Nat.le_refl _⟩
+theorem HLe.trans {a b d : Option Nat} (h1 : HLe a b) (h2 : HLe b d) : HLe a d := by
+  intro t ht
+  obtain ⟨t1, e1, l1⟩ := h1 t ht
+  obtain ⟨t2, e2, l2⟩ := h2 t1 e1
+  exact ⟨t2, e2, Nat.le_trans l1 l2⟩
+
+theorem holder_stepReady (s : St) (m : Nat) (h : RInv s m) : HLe s.holder (stepReady s).holder := by
+  have hh := h.held
+  have hc := h.current
+  have hs := h.started
+  have hl := h.ready_lt
+  unfold stepReady
+  split
+  · exact HLe.refl _
+  · rename_i t rest hr
+    have hlt : t < s.nTasks := hl t (by rw [hr]; simp)
+    simp only []
+    split
+    · rename_i hpc
+      have hmt : m ≤ t := (hs t hlt).1 hpc
+      split
+      · simp only [apply, ↓reduceIte]
+        intro t0 h0
+        exact ⟨t, rfl, by have := (hh t0 h0).1; omega⟩
+      · exact HLe.refl _
+    · rename_i hpc
+      split
+      · unfold apply
+        simp only []
+        split
+        · rename_i hcur
+          intro t0 h0
+          refine ⟨t, rfl, ?_⟩
+          have := (hh t0 h0).1
+          simp only [hc] at hcur
+          split at hcur
+          · cases hcur
+          · cases hcur; omega
+        · exact HLe.refl _
+      · exact HLe.refl _
+    · exact HLe.refl _
+
+theorem holder_drain (n : Nat) : ∀ s m, RInv s m → HLe s.holder (drain n s).holder := by
+  induction n with
+  | zero => intro s m _; exact HLe.refl _
+  | succ n ih =>
+    intro s m h
+    simp only [drain]
+    split
+    · exact HLe.refl _
+    · obtain ⟨m1, h1⟩ := rinv_stepReady s m h
+      exact (holder_stepReady s m h).trans (ih _ m1 h1)
+
+theorem holder_applyEvent (s : St) (m : Nat) (ev : Event) (h : RInv s m) : HLe s.holder (applyEvent s ev).holder := by
+  cases ev with
+  | set r => exact HLe.refl _
+  | tick => exact holder_drain _ s m h
+  | complete t r =>
+    simp only [applyEvent]
+    split
+    · split <;> exact HLe.refl _
+    · exact HLe.refl _
 
 end ParamVerif.Async.Rx
